@@ -19,6 +19,8 @@ void *__real_calloc(size_t, size_t);
 void *__real_realloc(void *, size_t);
 void __real_free(void *);
 
+static void *sites[64]; static int nsites;
+static void site(void *ra) { int i; for (i = 0; i < nsites; i++) if (sites[i] == ra) return; if (nsites < 64) sites[nsites++] = ra; }
 static int armed, nreq, failk, persist;      /* persist: every request from the failk-th on fails (memory stays exhausted) */
 #define FAILS(k) (persist ? (failk && (k) >= failk) : (k) == failk)
 static void *live[256];
@@ -32,7 +34,7 @@ static int idof(void *p) { int i; for (i = nlive_ids; i >= 1; i--) if (live[i] =
 void *__wrap_malloc(size_t n) {
     void *p;
     if (!armed) return __real_malloc(n);
-    nreq++;
+    nreq++; site(__builtin_return_address(0));
     if (FAILS(nreq)) { ev("{\"e\":\"malloc\",\"k\":%ld,\"ok\":false,\"id\":0,\"size\":%ld}\n", nreq, (long)n); return NULL; }
     armed = 0; p = __real_malloc(n); armed = 1;
     ev("{\"e\":\"malloc\",\"k\":%ld,\"ok\":true,\"id\":%ld}\n", nreq, newid(p));
@@ -41,7 +43,7 @@ void *__wrap_malloc(size_t n) {
 void *__wrap_calloc(size_t a, size_t b) {
     void *p;
     if (!armed) return __real_calloc(a, b);
-    nreq++;
+    nreq++; site(__builtin_return_address(0));
     if (FAILS(nreq)) { ev("{\"e\":\"malloc\",\"k\":%ld,\"ok\":false,\"id\":0,\"size\":%ld}\n", nreq, (long)(a * b)); return NULL; }
     armed = 0; p = __real_calloc(a, b); armed = 1;
     ev("{\"e\":\"malloc\",\"k\":%ld,\"ok\":true,\"id\":%ld}\n", nreq, newid(p));
@@ -51,7 +53,7 @@ void *__wrap_realloc(void *q, size_t n) {
     void *p;
     int old;
     if (!armed) return __real_realloc(q, n);
-    nreq++;
+    nreq++; site(__builtin_return_address(0));
     old = q ? idof(q) : 0;
     if (FAILS(nreq)) { ev("{\"e\":\"realloc\",\"k\":%ld,\"ok\":false,\"old\":%ld,\"id\":0}\n", nreq, old); return NULL; }
     armed = 0; p = __real_realloc(q, n); armed = 1;
@@ -127,6 +129,7 @@ int main(int argc, char **argv) {
     }
     armed = 0;
     fputs(evbuf, stdout);
+    { int i; fprintf(stderr, "SITES"); for (i = 0; i < nsites; i++) fprintf(stderr, " %p", sites[i]); fprintf(stderr, "\n"); }
     printf("{\"e\":\"ret\",\"failure\":%s,\"cleared\":%s,\"rc\":%ld,\"hcount\":%d}\n", failure ? "true" : "false", cleared ? "true" : "false", rc, hcount);
     return 0;
 }
